@@ -997,8 +997,8 @@ namespace Dune
     for(Iterators tmpIterators = iterators;
         !tmpIterators.isAtEnd() && tmpIterators.globalIndexPair() == globalPair;
         ++tmpIterators)
-      //entry already exists with the same attribute
-      if(tmpIterators.globalIndexPair().second == attribute) {
+      //entry already exists with the same remote attribute
+      if(tmpIterators.remoteIndex().attribute() == Attribute(attribute)) {
         indexIsThere=true;
         break;
       }
